@@ -8,7 +8,11 @@ package lifecycle
 // A case is a plan: 1..4 stub plugins, 1..4 updater goroutines (not plugin handlers) each
 // issuing a list of Stub.UpdateContainers calls, 0..4 runtime caller goroutines firing
 // lifecycle requests, calls on a never-started stub, and for every call the result the
-// runtime's UpdateFn is to return.
+// runtime's UpdateFn is to return. A plugin may also issue updates at the edges of its
+// session: from inside its Configure handler (it is registered by then, its Start() is still
+// waiting), from inside its Synchronize handler, from another goroutine while Configure is
+// being held (Start() in progress), concurrently with Stop(), and after Stop() returned.
+// Plugins marked late register while the updaters and callers are running.
 
 import (
 	"context"
@@ -48,12 +52,29 @@ type C19Call struct {
 }
 
 type C19Updater struct {
-	Plugin int       `json:"plugin"` // index into Plugins (mod)
+	Plugin int       `json:"plugin"` // index into the plugins that are not late (mod)
 	Calls  []C19Call `json:"calls"`
 }
 
+// C19Plugin is one stub plugin and the update calls it issues at the edges of its session.
+type C19Plugin struct {
+	Idx  string `json:"idx"`
+	Late bool   `json:"late,omitempty"` // registers during the concurrent phase instead of before it
+	// calls issued from inside the Configure handler (the plugin is registered, Start() waits)
+	InConfigure []C19Call `json:"in_configure,omitempty"`
+	// calls issued from inside the Synchronize handler
+	InSync []C19Call `json:"in_synchronize,omitempty"`
+	// calls issued from another goroutine while the Configure handler is held back
+	DuringStart []C19Call `json:"during_start,omitempty"`
+	// after everything else: one call racing Stop() (Stop follows after the delay), then
+	// calls after Stop() returned
+	RaceStop        *C19Call  `json:"race_stop,omitempty"`
+	RaceStopDelayUs int       `json:"race_stop_delay_us,omitempty"`
+	AfterStop       []C19Call `json:"after_stop,omitempty"`
+}
+
 type C19Case struct {
-	Plugins   []string     `json:"plugins"` // two-digit indices
+	Plugins   []C19Plugin  `json:"plugins"`
 	Updaters  []C19Updater `json:"updaters"`
 	Callers   [][]int32    `json:"callers,omitempty"`   // lifecycle events per runtime caller goroutine
 	Unstarted []C19Call    `json:"unstarted,omitempty"` // calls on a stub that was never started
@@ -121,13 +142,37 @@ func genC19(t *rapid.T) C19Case {
 		EmptyMode: rapid.IntRange(0, 2).Draw(t, "empty_mode"),
 	}
 	np := rapid.IntRange(1, 4).Draw(t, "plugins")
+	early := 0
 	for i := 0; i < np; i++ {
-		c.Plugins = append(c.Plugins, fmt.Sprintf("%02d", rapid.IntRange(0, 99).Draw(t, "idx")))
+		p := C19Plugin{Idx: fmt.Sprintf("%02d", rapid.IntRange(0, 99).Draw(t, "idx"))}
+		if i > 0 && rapid.IntRange(0, 9).Draw(t, "late") < 3 {
+			p.Late = true
+		} else {
+			early++
+		}
+		if rapid.IntRange(0, 9).Draw(t, "in_configure") < 3 {
+			p.InConfigure = rapid.SliceOfN(genC19Call(true), 1, 2).Draw(t, "in_configure_calls")
+		}
+		if rapid.IntRange(0, 9).Draw(t, "in_sync") < 3 {
+			p.InSync = rapid.SliceOfN(genC19Call(true), 1, 2).Draw(t, "in_sync_calls")
+		}
+		if rapid.IntRange(0, 9).Draw(t, "during_start") < 3 {
+			p.DuringStart = rapid.SliceOfN(genC19Call(false), 1, 2).Draw(t, "during_start_calls")
+		}
+		if rapid.IntRange(0, 9).Draw(t, "race_stop") < 2 {
+			call := genC19Call(false).Draw(t, "race_stop_call")
+			p.RaceStop = &call
+			p.RaceStopDelayUs = rapid.SampledFrom([]int{0, 0, 50, 200, 1000}).Draw(t, "race_stop_delay_us")
+		}
+		if rapid.IntRange(0, 9).Draw(t, "after_stop") < 2 {
+			p.AfterStop = rapid.SliceOfN(genC19Call(false), 1, 2).Draw(t, "after_stop_calls")
+		}
+		c.Plugins = append(c.Plugins, p)
 	}
 	nu := rapid.IntRange(1, 4).Draw(t, "updaters")
 	for i := 0; i < nu; i++ {
 		c.Updaters = append(c.Updaters, C19Updater{
-			Plugin: rapid.IntRange(0, np-1).Draw(t, "updater_plugin"),
+			Plugin: rapid.IntRange(0, early-1).Draw(t, "updater_plugin"),
 			Calls:  rapid.SliceOfN(genC19Call(true), 1, 4).Draw(t, "calls"),
 		})
 	}
